@@ -232,3 +232,49 @@ Proof.
 Qed.
 
 End AsyncTermination.
+
+(* ---- the two models of the destination side agree on successful runs ---- *)
+From RJ Require Import Proofs.ExecProofs.
+Section AsyncVsSync.
+Variable fl : flavour.
+
+Lemma run_all_exec_all cmds : forall d, run_all (doer_exec fl) d cmds = exec_all fl d cmds.
+Proof. induction cmds as [|c r IH]; intros d; cbn [run_all exec_all]; auto. Qed.
+
+Lemma errs_all_nil_all_ok cmds : forall d, errs_all (doer_exec fl) d cmds = [] -> all_ok fl d cmds.
+Proof.
+  induction cmds as [|c r IH]; intros d H; cbn [errs_all all_ok] in *; [exact I|].
+  apply app_eq_nil in H as [H1 H2]. split; [destruct (snd (doer_exec fl d c)); [discriminate|reflexivity]|apply IH; exact H2].
+Qed.
+
+(* the synchronous model (Model/Sync.run_steps) without faults, on commands that all succeed, executes them all *)
+Lemma run_steps_all_ok steps : forall r,
+  rs_srcfail r = false -> rs_budget r = None -> all_ok fl (rs_d r) (dest_cmds steps) ->
+  rs_d (run_steps fl no_faults r steps) = exec_all fl (rs_d r) (dest_cmds steps) /\
+  rs_errs (run_steps fl no_faults r steps) = rs_errs r /\ rs_srcfail (run_steps fl no_faults r steps) = false.
+Proof.
+  induction steps as [|s rest IH]; intros r Hs Hb Hok; [repeat split; auto|].
+  change (run_steps fl no_faults r (s :: rest)) with (run_steps fl no_faults (run_step fl no_faults r s) rest).
+  unfold run_step. rewrite Hs, Hb. destruct s as [c|q].
+  - unfold dest_cmds in *. cbn [flat_map app all_ok exec_all] in *. destruct Hok as [Hc Hrest].
+    unfold do_step. cbn [no_faults ft_stop ft_dest mem_nat existsb]. rewrite !andb_false_r. cbv zeta. rewrite Hc.
+    set (r1 := mkR _ _ _ _ _ _ _ _).
+    assert (Hb1 : rs_budget r1 = None) by (unfold r1; cbn [rs_budget]; rewrite Hb; reflexivity).
+    destruct (IH r1 eq_refl Hb1 Hrest) as (I1 & I2 & I3). repeat split; assumption.
+  - unfold dest_cmds in *. cbn [flat_map app] in *. unfold do_step. cbn [no_faults ft_src mem_nat existsb].
+    set (r1 := mkR _ _ _ _ _ _ _ _).
+    assert (Hb1 : rs_budget r1 = None) by (unfold r1; cbn [rs_budget]; rewrite Hb; reflexivity).
+    destruct (IH r1 eq_refl Hb1 Hok) as (I1 & I2 & I3). repeat split; assumption.
+Qed.
+
+Theorem async_ok_agrees_with_sync D t0 s0 steps s :
+  areach (doer_exec fl) (ainit D steps) s -> a_boss s = BOk ->
+  let r := run_steps fl no_faults (mkR D t0 s0 [] false 0 0 None) steps in
+  a_d s = rs_d r /\ rs_errs r = [] /\ rs_srcfail r = false.
+Proof.
+  intros Hr Hb. destruct (async_ok_sound (doer_exec fl) D steps s Hr Hb) as (_ & Hd & He & _).
+  destruct (run_steps_all_ok steps (mkR D t0 s0 [] false 0 0 None) eq_refl eq_refl (errs_all_nil_all_ok _ D He)) as (I1 & I2 & I3).
+  cbv zeta. rewrite I1, Hd, run_all_exec_all. auto.
+Qed.
+
+End AsyncVsSync.
